@@ -443,7 +443,7 @@ public:
             emplace_back(etl::move(*first));
         }
         auto* writablePosition = begin() + (position - begin());
-        rotate<iterator>(writablePosition, b, end());
+        etl::rotate<iterator>(writablePosition, b, end());
         return writablePosition;
     }
 
@@ -482,7 +482,7 @@ public:
         }
 
         auto* writablePosition = begin() + (position - begin());
-        rotate(writablePosition, b, end());
+        etl::rotate(writablePosition, b, end());
         return writablePosition;
     }
 
@@ -513,7 +513,7 @@ public:
         }
 
         auto* writablePosition = begin() + (position - begin());
-        rotate(writablePosition, b, end());
+        etl::rotate(writablePosition, b, end());
         return writablePosition;
     }
 
